@@ -26,7 +26,7 @@ import (
 )
 
 var st = stat.New("C09",
-	"Case = one proxy + scripted server, generated client limits (calls in flight per proxy 1..6 or default, send queue length 1..4 or default), 1..8 steps; step = 1..12 concurrent calls (or one) each with {timeout source: proxy default (TarsSetTimeout) | per-call (current.SetClientTimeout) | context deadline; value 60..300 ms; two-way or one-way} and a peer behaviour per request from {answer, answer after the deadline, reply split in two pieces 5 ms apart, reply split with the second piece after the deadline and after the client's read timeout, silent, close connection now, close in the middle of the response, garbage bytes, illegal length prefix}; between steps the server may stop listening (dials are refused) and come back. Oracle per call: returns (watchdog 20 s), wall clock <= effective deadline + 150 ms + 10% (an overrun is re-measured by re-running the case alone twice; unconfirmed => inconclusive), outcome is reply or error; a call whose complete reply the server had written >= 150 ms before its deadline must succeed when neither this nor the previous step scripts a connection fault. After quiescence (all calls returned, all scripted late replies delivered, +60 ms): the proxy's in-flight counter, the size of the pending-reply tables and the manager's invocation counter are back to 0; a late reply changes no other call's outcome (checked by serial as in C08). Non-trivial = case with >=1 timed-out call, >=1 peer fault and a later successful call. Distinct = distinct case JSON. Establishment sub-check: endpoint transport tcp | ssl, a peer that accepts the TCP connection and then is silent | closes after 0..200 ms | sends garbage (so that on ssl the TLS handshake never completes), 1..3 sequential calls with per-call or context timeouts 100..600 ms and a dial timeout of 400 ms; oracle: each call returns (watchdog 20 s) with an error within timeout + dial timeout + 150 ms + 10% (re-measured twice), the counters are back to 0 afterwards.",
+	"Case = one proxy (in a third of the cases two proxy objects for the same object string, used alternately: they share connection and pending-reply table) + scripted server, generated client limits (calls in flight per proxy 1..6 or default, send queue length 1..4 or default), 1..8 steps; step = 1..12 concurrent calls (or one) each with {timeout source: proxy default (TarsSetTimeout) | per-call (current.SetClientTimeout) | context deadline; value 60..300 ms; two-way or one-way} and a peer behaviour per request from {answer, answer after the deadline, reply split in two pieces 5 ms apart, reply split with the second piece after the deadline and after the client's read timeout, silent, close connection now, close in the middle of the response, garbage bytes, illegal length prefix}; between steps the server may stop listening (dials are refused) and come back. Oracle per call: returns (watchdog 20 s), wall clock <= effective deadline + 150 ms + 10% (an overrun is re-measured by re-running the case alone twice; unconfirmed => inconclusive), outcome is reply or error; a call whose complete reply the server had written >= 150 ms before its deadline must succeed when neither this nor the previous step scripts a connection fault. After quiescence (all calls returned, all scripted late replies delivered, +60 ms): the proxy's in-flight counter, the size of the pending-reply tables and the manager's invocation counter are back to 0; a late reply changes no other call's outcome (checked by serial as in C08). Non-trivial = case with >=1 timed-out call, >=1 peer fault and a later successful call. Distinct = distinct case JSON. Establishment sub-check: endpoint transport tcp | ssl, a peer that accepts the TCP connection and then is silent | closes after 0..200 ms | sends garbage (so that on ssl the TLS handshake never completes), 1..3 sequential calls with per-call or context timeouts 100..600 ms and a dial timeout of 400 ms; oracle: each call returns (watchdog 20 s) with an error within timeout + dial timeout + 150 ms + 10% (re-measured twice), the counters are back to 0 afterwards.",
 	"on loopback a connection is established or refused within a millisecond, so the connection-establishment bound of the property contributes nothing to the deadline; black-holed addresses (slow dials) cannot be produced offline",
 	"the per-connection in-flight counter (transport level) is observed and reported as a class, not asserted: the property's state list names the proxy counter, the pending-reply table and the manager counter")
 
@@ -52,6 +52,9 @@ type Case struct {
 	ClientQueueLen int    `json:"client_queue_len,omitempty"`
 	ProxyTimeoutMs int    `json:"proxy_timeout_ms"`
 	Steps          []Step `json:"steps"`
+	// TwoProxies: the calls alternate between two proxy objects created for the same object
+	// string (they share the endpoint manager, the connection and the pending-reply table)
+	TwoProxies bool `json:"two_proxies,omitempty"`
 }
 
 func draw(rt *rapid.T) Case {
@@ -60,6 +63,7 @@ func draw(rt *rapid.T) Case {
 		c.ObjQueueMax = rapid.IntRange(1, 6).Draw(rt, "objQueueMax")
 		c.ClientQueueLen = rapid.IntRange(1, 4).Draw(rt, "clientQueueLen")
 	}
+	c.TwoProxies = rapid.IntRange(0, 2).Draw(rt, "twoProxies") == 0
 	ns := rapid.IntRange(1, 8).Draw(rt, "nsteps")
 	listening := true
 	for s := 0; s < ns; s++ {
@@ -184,6 +188,12 @@ func runOnce(c Case) verdict {
 	obj := fmt.Sprintf("Verif.C09.Obj%d@tcp -h 127.0.0.1 -p %d -t 60000", atomic.AddInt64(&objSeq, 1), srv.Port)
 	sp := tars.NewServantProxy(comm, obj)
 	sp.TarsSetTimeout(c.ProxyTimeoutMs)
+	proxies := []*tars.ServantProxy{sp}
+	if c.TwoProxies {
+		sp2 := tars.NewServantProxy(comm, obj)
+		sp2.TarsSetTimeout(c.ProxyTimeoutMs)
+		proxies = append(proxies, sp2)
+	}
 	token := 0
 	maxLate := 0
 	listening := true
@@ -249,7 +259,7 @@ func runOnce(c Case) verdict {
 					ct = 1
 				}
 				t0 := time.Now()
-				err := sp.TarsInvoke(ctx, ct, "echo", buf, nil, nil, resp)
+				err := proxies[tok%len(proxies)].TarsInvoke(ctx, ct, "echo", buf, nil, nil, resp)
 				r := callResult{err: err, took: time.Since(t0), tok: tok, start: t0}
 				if cancel != nil {
 					cancel()
@@ -270,7 +280,17 @@ func runOnce(c Case) verdict {
 		if breaks(stp) || stp.Restore {
 			lastFault = time.Now()
 		}
-		_, sent, _ := srv.Snapshot()
+		reqsNow, sent, _ := srv.Snapshot()
+		idsOfTok := map[int]map[int32]bool{}
+		for _, rq := range reqsNow {
+			if len(rq.Buffer) >= 4 {
+				t := int(binary.BigEndian.Uint32(rq.Buffer))
+				if idsOfTok[t] == nil {
+					idsOfTok[t] = map[int32]bool{}
+				}
+				idsOfTok[t][rq.ID] = true
+			}
+		}
 		bySerial := map[int64]peer.Sent{}
 		for _, s := range sent {
 			if s.Serial != 0 {
@@ -297,8 +317,13 @@ func runOnce(c Case) verdict {
 				if cl.Peer != "answer" && cl.Peer != "late" && cl.Peer != "split-fast" && cl.Peer != "split-late" {
 					return verdict{f: stat.Failf("phantom-success", "step %d call %d: peer behaviour %q never sends a valid reply, yet the call succeeded", si, i, cl.Peer)}
 				}
-				if s, ok := bySerial[r.serial]; !r.has || !ok || (s.Kind != "own" && s.Kind != "late") {
+				s, ok := bySerial[r.serial]
+				if !r.has || !ok || (s.Kind != "own" && s.Kind != "late") {
 					return verdict{f: stat.Failf("foreign-reply", "step %d call %d: succeeded with a reply (serial %d) that is not its own", si, i, r.serial)}
+				}
+				// ... and it must be the reply the server addressed to this call's request
+				if ids, known := idsOfTok[r.tok]; known && !ids[s.ID] {
+					return verdict{f: stat.Failf("foreign-reply", "step %d call %d (token %d, request id(s) %v): succeeded with the reply with serial %d, which the server addressed to request id %d - the reply of another call", si, i, r.tok, keys(ids), r.serial, s.ID)}
 				}
 			}
 		}
@@ -309,7 +334,10 @@ func runOnce(c Case) verdict {
 	var q, p int
 	var inv int32
 	for {
-		q, p, inv = int(sp.VerifQueueLen()), sp.VerifPending(), sp.VerifInvokeNum()
+		q, p, inv = 0, sp.VerifPending(), sp.VerifInvokeNum()
+		for _, px := range proxies {
+			q += int(px.VerifQueueLen())
+		}
 		if (q == 0 && p == 0 && inv == 0) || time.Now().After(dl) {
 			break
 		}
@@ -323,6 +351,14 @@ func runOnce(c Case) verdict {
 	}
 	// the final healthy call must have succeeded (recovery after faults)
 	return v
+}
+
+func keys(m map[int32]bool) []int32 {
+	var out []int32
+	for k := range m {
+		out = append(out, k)
+	}
+	return out
 }
 
 func run(c Case) *stat.Failure {
